@@ -192,4 +192,17 @@ Theorem C06_format_relayout :
   lay_similar segs segs' -> format_model alnum cfg s' = format_model alnum cfg s.
 Proof. exact format_relayout. Qed.
 
+(* the spaces in front of a token whose invariant is MustBreak are never read by the search: two inputs that differ only there give
+   the same events and the same counters (and the same spaces at every token that starts a line) *)
+From PasfmtVerif Require Import Model.Format Proofs.FormatProofs Proofs.FormatIdemProofs Proofs.FormatIdemKindsProofs Proofs.FormatIdemSpacesProofs Proofs.WrapSpacesProofs.
+Theorem C06_spaces_of_a_must_break_token_are_never_read :
+  forall (rs : rsettings) (W : wsettings) (lines : list lline) (l l' : list ftoken),
+  Forall2 tok_rel l l' ->
+  differing_are_must_break (map tokinfo_of l) (map tokinfo_of l') lines ->
+  snd (fst (olf_model rs W false lines l)) = snd (fst (olf_model rs W false lines l')) /\
+  snd (olf_model rs W false lines l) = snd (olf_model rs W false lines l') /\
+  Forall2 out_rel (fst (fst (olf_model rs W false lines l)))
+    (fst (fst (olf_model rs W false lines l'))).
+Proof. exact olf_model_sp. Qed.
+
 
